@@ -1,9 +1,255 @@
 package c06
 
-import "testing"
+import (
+	"fmt"
+	"sort"
+	"strings"
+	"testing"
+	"time"
+
+	"pgregory.net/rapid"
+
+	"tunnox-core/internal/cloud/models"
+	"tunnox-core/internal/cloud/services"
+	"tunnox-core/verif/vkit"
+)
+
+// Sequential histories: create / revoke / let expire / activate in any order, on two
+// nodes over one store, with at most one failing storage write per activation, against a model.
 
 type Step struct {
-	Kind string `json:"kind"`
+	Kind   string `json:"kind"` // create | activate | revoke | expire | activate_unknown
+	Code   int    `json:"code,omitempty"`
+	Target int    `json:"target,omitempty"`
+	Short  bool   `json:"short_ttl,omitempty"`
+	Listen int    `json:"listen,omitempty"`
+	FailAt int    `json:"fail_at"`
+	Node   int    `json:"node,omitempty"`
 }
 
-func runSequential(t *testing.T, c Case) {}
+const (
+	shortTTL = 120 * time.Millisecond
+	margin   = 30 * time.Millisecond
+)
+
+var seqTargets = []struct {
+	id   int64
+	addr string
+	host string
+	port int
+}{{70000001, "tcp://10.0.0.5:8080", "10.0.0.5", 8080}, {70000002, "tcp://192.168.7.7:5432", "192.168.7.7", 5432}}
+
+type mcode struct {
+	rec    *models.TunnelConnectionCode
+	target int
+	state  string // active | activated | revoked | unknown
+}
+
+func runSequential(t vkit.TB, c Case) {
+	w := newWorld(2, &services.ConnectionCodeServiceConfig{MaxActiveCodesPerClient: 10, MaxActiveMappingsPerClient: c.MaxMap}, false)
+	defer w.close()
+	var codes []*mcode
+	good := map[string]int64{} // mapping id -> listen client, for every successful activation
+	perListen := map[int64]int{}
+	var tags []string
+	nontrivial := false
+	hadExpiredAttempt, hadFault := false, false
+
+	checkStore := func(step int, cause string) bool {
+		have := map[string]bool{}
+		for _, m := range w.mappings() {
+			have[m.ID] = true
+			if _, ok := good[m.ID]; !ok {
+				vkit.Violation(t, "C06/failed-activation-leaves-mapping/"+cause, fmt.Sprintf("step %d: mapping %s (listen %d -> %d %s) is in storage but no successful activation returned it; steps=%s", step, m.ID, m.ListenClientID, m.TargetClientID, m.TargetAddress, strings.Join(tags, " ")), c)
+				return false
+			}
+		}
+		for id := range good {
+			if !have[id] {
+				vkit.Violation(t, "C06/sequential/mapping-of-successful-activation-missing", fmt.Sprintf("step %d: %s; steps=%s", step, id, strings.Join(tags, " ")), c)
+				return false
+			}
+		}
+		for l := int64(0); l < 3; l++ {
+			for _, id := range w.indexEntries(listenBase + l) {
+				if _, ok := good[id]; !ok {
+					vkit.Violation(t, "C06/failed-activation-leaves-index-entry/"+cause, fmt.Sprintf("step %d: listen client %d index lists %s; steps=%s", step, listenBase+l, id, strings.Join(tags, " ")), c)
+					return false
+				}
+			}
+		}
+		return true
+	}
+
+	for si, s := range c.Steps {
+		n := w.nodes[s.Node%2]
+		switch s.Kind {
+		case "create":
+			if len(codes) >= 4 {
+				continue
+			}
+			ttl := time.Hour
+			if s.Short {
+				ttl = shortTTL
+			}
+			tg := seqTargets[s.Target%2]
+			rec, err := n.cc.CreateConnectionCode(&services.CreateConnectionCodeRequest{TargetClientID: tg.id, TargetAddress: tg.addr, ActivationTTL: ttl, CreatedBy: "verif"})
+			if err != nil {
+				vkit.Violation(t, "C06/harness/create-failed", err.Error(), c)
+				return
+			}
+			codes = append(codes, &mcode{rec: rec, target: s.Target % 2, state: "active"})
+			tags = append(tags, fmt.Sprintf("create(t%d,short=%v)", s.Target%2, s.Short))
+		case "expire":
+			var until time.Time
+			for _, mc := range codes {
+				if e := mc.rec.ActivationExpiresAt.Add(margin + 5*time.Millisecond); mc.rec.ActivationTTL == shortTTL && e.After(until) {
+					until = e
+				}
+			}
+			if d := time.Until(until); d > 0 {
+				time.Sleep(d)
+			}
+			tags = append(tags, "expire")
+		case "revoke":
+			if len(codes) == 0 {
+				continue
+			}
+			mc := codes[s.Code%len(codes)]
+			err := n.cc.RevokeConnectionCode(mc.rec.Code, "verif")
+			tags = append(tags, fmt.Sprintf("revoke(c%d)=%s", s.Code%len(codes), errCode(err)))
+			if err == nil && (mc.state == "active" || mc.state == "unknown") {
+				mc.state = "revoked"
+			}
+		case "activate", "activate_unknown":
+			listen := listenBase + int64(s.Listen%3)
+			addr := fmt.Sprintf("0.0.0.0:%d", 9100+si)
+			codeStr := "zzz-zzz-zz9"
+			var mc *mcode
+			if s.Kind == "activate" && len(codes) > 0 {
+				mc = codes[s.Code%len(codes)]
+				codeStr = mc.rec.Code
+			}
+			w.store.mu.Lock()
+			w.store.Failed = ""
+			w.store.mu.Unlock()
+			w.store.arm(s.FailAt)
+			t0 := time.Now()
+			m, err := n.cc.ActivateConnectionCode(&services.ActivateConnectionCodeRequest{Code: codeStr, ListenClientID: listen, ListenAddress: addr})
+			t1 := time.Now()
+			w.store.disarm()
+			faulted := w.store.Failed != ""
+			cause := "no-fault/" + errCode(err)
+			if faulted {
+				cause = "fault@" + faultClass(w.store.Failed)
+				hadFault = true
+				vkit.Class("seq-fault:" + faultClass(w.store.Failed))
+			}
+			ok := err == nil && m != nil
+			st := "unknown-code"
+			surelyExpired, surelyFresh := false, true
+			if mc != nil {
+				st = mc.state
+				surelyExpired = t0.After(mc.rec.ActivationExpiresAt.Add(margin))
+				surelyFresh = t1.Before(mc.rec.ActivationExpiresAt.Add(-margin))
+				if !surelyExpired && !surelyFresh {
+					vkit.Skipped(1) // boundary zone: either outcome accepted
+				}
+				if surelyExpired {
+					st += "+expired"
+					hadExpiredAttempt = true
+				}
+			}
+			tags = append(tags, fmt.Sprintf("activate(%s,l%d,n%d,f%d)=%s", st, s.Listen%3, s.Node%2, s.FailAt, errCode(err)))
+			if st != "active" {
+				nontrivial = true
+			}
+			if ok {
+				switch {
+				case mc == nil:
+					vkit.Violation(t, "C06/sequential/unknown-code-activated", strings.Join(tags, " "), c)
+					return
+				case mc.state == "revoked":
+					vkit.Violation(t, "C06/sequential/revoked-code-activated", strings.Join(tags, " "), c)
+					return
+				case mc.state == "activated":
+					vkit.Violation(t, "C06/sequential/used-code-activated-again", strings.Join(tags, " "), c)
+					return
+				case surelyExpired:
+					vkit.Violation(t, "C06/sequential/expired-code-activated", fmt.Sprintf("activation started %v after expiry; %s", t0.Sub(mc.rec.ActivationExpiresAt), strings.Join(tags, " ")), c)
+					return
+				}
+				tg := seqTargets[mc.target]
+				if m.TargetClientID != tg.id || m.TargetAddress != tg.addr || m.TargetHost != tg.host || m.TargetPort != tg.port {
+					vkit.Violation(t, "C06/mapping-target-not-from-code", fmt.Sprintf("code fixed (%d,%s); mapping targets (%d,%s,%s:%d); %s", tg.id, tg.addr, m.TargetClientID, m.TargetAddress, m.TargetHost, m.TargetPort, strings.Join(tags, " ")), c)
+					return
+				}
+				if m.ListenClientID != listen || m.ListenAddress != addr {
+					vkit.Violation(t, "C06/mapping-not-listening-for-activator", fmt.Sprintf("activator %d at %s; mapping listens for %d at %s", listen, addr, m.ListenClientID, m.ListenAddress), c)
+					return
+				}
+				mc.state = "activated"
+				good[m.ID] = listen
+				perListen[listen]++
+				// the stored record must say the same
+				byCode, _ := w.codeRecord(mc.rec.Code, mc.rec.ID)
+				if surelyFresh && (byCode == nil || !byCode.IsActivated || byCode.MappingID == nil || *byCode.MappingID != m.ID) {
+					vkit.Violation(t, "C06/code-record-not-activated-after-success/by-code/sequential/"+cause, recStr(byCode)+" "+strings.Join(tags, " "), c)
+					return
+				}
+			} else {
+				if mc != nil && mc.state == "active" && surelyFresh && !faulted && perListen[listen] < c.MaxMap {
+					vkit.Violation(t, "C06/sequential/valid-code-refused/"+errCode(err), fmt.Sprintf("%v; %s", err, strings.Join(tags, " ")), c)
+					return
+				}
+				if mc != nil && faulted && mc.state == "active" {
+					mc.state = "unknown" // the failed write may have left the code marked used
+				}
+			}
+			if !checkStore(si, cause) {
+				return
+			}
+		}
+	}
+	if !checkStore(len(c.Steps), "end") {
+		return
+	}
+	class := "seq"
+	if hadFault {
+		class += "+fault"
+	}
+	if hadExpiredAttempt {
+		class += "+expired-attempt"
+	}
+	sort.Strings(nil)
+	vkit.Case(class, nontrivial, fmt.Sprintf("%d|%s", c.MaxMap, strings.Join(tags, " ")))
+	vkit.Sample(class, map[string]any{"steps": tags, "max_mappings": c.MaxMap})
+}
+
+func TestSequentialHistories(t *testing.T) {
+	stepGen := rapid.Custom(func(t *rapid.T) Step {
+		kind := rapid.SampledFrom([]string{"create", "create", "activate", "activate", "activate", "activate", "activate", "revoke", "revoke", "expire", "activate_unknown"}).Draw(t, "kind")
+		s := Step{Kind: kind, FailAt: -1}
+		switch kind {
+		case "create":
+			s.Target = rapid.IntRange(0, 1).Draw(t, "target")
+			s.Short = rapid.Bool().Draw(t, "short")
+		case "activate", "activate_unknown":
+			s.Code = rapid.IntRange(0, 3).Draw(t, "code")
+			s.Listen = rapid.IntRange(0, 2).Draw(t, "listen")
+			s.FailAt = rapid.SampledFrom([]int{-1, -1, -1, 0, 1, 2, 3, 4, 5, 6, 7, 8, 9}).Draw(t, "failAt")
+		case "revoke":
+			s.Code = rapid.IntRange(0, 3).Draw(t, "code")
+		}
+		s.Node = rapid.IntRange(0, 1).Draw(t, "node")
+		return s
+	})
+	vkit.Check(t, 480, 12000, func(t *rapid.T) {
+		c := Case{Mode: "sequential", FailAt: -1, QuotaFull: -1,
+			MaxMap: rapid.SampledFrom([]int{1, 2, 50}).Draw(t, "maxMappings"),
+		}
+		first := Step{Kind: "create", Target: rapid.IntRange(0, 1).Draw(t, "t0"), Short: rapid.Bool().Draw(t, "short0"), FailAt: -1}
+		c.Steps = append([]Step{first}, rapid.SliceOfN(stepGen, 1, 12).Draw(t, "steps")...)
+		runSequential(t, c)
+	})
+}
